@@ -12,6 +12,8 @@ import (
 	"golang.org/x/tools/go/ssa"
 )
 
+var binKinds = map[string]int{"add": 1, "sub": 2, "mul": 3, "div": 4, "gt": 5, "gte": 6, "lt": 7, "lte": 8, "eleq": 9}
+
 // dimsOf describes a shape: rank and a function giving the extent of axis i (i may be a bound variable).
 type dimsOf struct {
 	rank string
@@ -205,7 +207,7 @@ func init() {
 			}
 			contA := ite(ta, x.tCont(st, ra), add("1000000", ra))
 			contB := ite(tb, x.tCont(st, rb), add("1000000", rb))
-			cont := sx(x.ufn("k_"+name, 2), contA, contB)
+			cont := sx("k_bin", fmt.Sprint(binKinds[name]), contA, contB)
 			rdt := dt
 			if cmp {
 				rdt = ite(same, dt, fmt.Sprint(dtypeCodes["Bool"]))
@@ -514,7 +516,10 @@ func init() {
 			st := fr.curSt
 			t := tensorRef(args[0])
 			coords := args[1]
-			ok := and(eq(coords.slen(), x.tRank(st, t)), x.nondetBool("at_inrange"))
+			cit := x.ghostGet(st, "coord$it", coords.base())
+			ctn := x.ghostGet(st, "it$tensor", cit)
+			fromIter := and(not(eq(cit, "0")), x.sameShape(st, t, ctn), sx("<", x.ghostGet(st, "it$pos", cit), x.tBlen(st, ctn)))
+			ok := and(eq(coords.slen(), x.tRank(st, t)), or(fromIter, x.nondetBool("at_inrange")))
 			box := x.newRef(st, "atbox")
 			dt := x.tDtype(st, t)
 			tag := "0"
@@ -529,7 +534,12 @@ func init() {
 	setAt := func(x *Exec, fr *Frame, i *ssa.Call, fn *ssa.Function, args []Val) Val {
 		st := fr.curSt
 		t := tensorRef(args[0])
-		okT := x.define("setat_ok", SBool, x.nondetBool("setat_ok"))
+		coords := args[2]
+		cit := x.ghostGet(st, "coord$it", coords.base())
+		ctn := x.ghostGet(st, "it$tensor", cit)
+		fromIter := and(not(eq(cit, "0")), x.sameShape(st, t, ctn), sx("<", x.ghostGet(st, "it$pos", cit), x.tBlen(st, ctn)))
+		typeOK := eq(x.scalarDtype(args[1]), x.tDtype(st, t))
+		okT := x.define("setat_ok", SBool, and(typeOK, or(fromIter, x.nondetBool("setat_inrange"))))
 		x.oblige(fr, "frame", "setat-write", x.contractTags(fr), or(not(okT), x.permitted(fr, "G$t$cont", t)), fr.curPC,
 			"SetAt writes an element of a tensor the function may not modify", "")
 		x.ghostSet(st, "t$cont", t, ite(okT, sx(x.ufn("k_setat", 3), x.tCont(st, t), args[1].pay(), args[2].base()), x.tCont(st, t)))
@@ -570,6 +580,7 @@ func init() {
 		t := x.ghostGet(st, "it$tensor", it)
 		ref := x.newRef(st, "coord")
 		rank := x.tRank(st, t)
+		x.ghostSet(st, "coord$it", ref, it)
 		return Val{T: i.Type(), C: []string{ref, "0", rank, rank}}
 	})
 	slice := func(x *Exec, fr *Frame, i *ssa.Call, fn *ssa.Function, args []Val) Val {
